@@ -469,6 +469,7 @@ func evalCodecRoundTrip(c *Ctx, r *Report, rule string, sp codecSpec) {
 			Params: map[string]SV{"recv": symRef("recv", false), "p0": {K: "slice", Desc: "src", Len: lenSV(L), Cap: lenSV(L)}, "p1": symRef("hdr", false)},
 			Inline: inline, Call: codecModel, ZeroRecv: true, Heap: map[string]SV{},
 		}
+		sentinelErrors(c, sp.pkg, sc.Heap)
 		if ds, ok := defaultDigestSize(c); ok && sp.pkg == "modules/l4openvpn" {
 			sc.Heap["global:modules/l4openvpn.AuthDigestDefault"] = symRef("AuthDigestDefault", false)
 			sc.Heap["AuthDigestDefault.Size"] = symInt(ds)
@@ -514,6 +515,7 @@ func evalCodecRoundTrip(c *Ctx, r *Report, rule string, sp codecSpec) {
 					heap[k] = v
 				}
 			}
+			sentinelErrors(c, sp.pkg, heap)
 			sc2 := &Scenario{Name: sc.Name, MaxVisit: 40, Params: map[string]SV{"recv": symRef("recv", false)}, Heap: heap, Inline: inline, Call: codecModel, Assume: map[string]bool{}, ZeroRecv: true}
 			for _, a := range p.Assume {
 				i := strings.LastIndex(a, "=")
@@ -639,4 +641,26 @@ func defaultDigestSize(c *Ctx) (int64, bool) {
 		})
 	}
 	return size, found
+}
+
+// sentinelErrors: the package-level error variables made by errors.New are non-nil values (part of the program text).
+func sentinelErrors(c *Ctx, pkgShort string, heap map[string]SV) {
+	pk := c.ByPath[modPath+"/"+pkgShort]
+	if pk == nil {
+		return
+	}
+	sp := c.SSA[pk.PkgPath]
+	if sp == nil {
+		return
+	}
+	for name, mem := range sp.Members {
+		g, ok := mem.(*ssa.Global)
+		if !ok {
+			continue
+		}
+		if varInitIsNewError(c, pkgShort, name) {
+			key := "global:" + globalName(g)
+			heap[key] = SV{K: "ref", Known: true, Desc: key}
+		}
+	}
 }
